@@ -100,6 +100,22 @@ def run(ctx, pid=PID, check=_life.check_c03, with_up=WITH_UP):
                         ctx.violation(sc, "PredictIndex: absolute [14, 16] then relative [14, 16] then absolute again on %s gave "
                                           "indexes %s, %s, %s" % (entry["name"], list(pa.index), list(pr.index), list(pa2.index)))
                         continue
+                    # the value labelled cutoff + step is the forecast of that step, whichever other steps are
+                    # requested along with it (forecasters that do not depend on the horizon they were fitted with)
+                    yv = LC.batch(0, 13, 1, 0, "range")
+                    f = entry["factory"]().fit(yv)
+                    full = f.predict([1, 2, 3, 4, 5])
+                    for steps in ([2, 4], [3], [2, 3, 5], [5]):
+                        part = entry["factory"]().fit(yv).predict(steps)
+                        want = [float(full.iloc[h - 1]) for h in steps]
+                        if [int(i) for i in part.index] != [13 + h for h in steps] or not LC.close([float(v) for v in part.values], want):
+                            ctx.violation(sc, "PredictIndex: on %s the values labelled cutoff + %s are %s, the forecasts of those steps "
+                                              "(taken from predict([1..5])) are %s" % (entry["name"], steps, [float(v) for v in part.values], want))
+                            break
+                    else:
+                        steps = None
+                    if steps is not None:
+                        continue
                 f = entry["factory"]().fit(y, fh=[2, 4])
                 p = f.predict()
                 if [int(i) for i in p.index] != [13, 15]:
